@@ -504,6 +504,16 @@ impl Scenario for Hostile {
                     }
                     if small {
                         l.prefix = l.prefix.min(8);
+                        // enumerated sub-spaces are per structural byte: keep the headers small
+                        for e in l.entries.iter_mut() {
+                            if e.name.0.len() > 64 {
+                                e.name.0.truncate(64);
+                            }
+                            if e.extra_local.0.len() > 64 {
+                                e.extra_local = Hex(vec![]);
+                            }
+                            e.trailing_pad = e.trailing_pad.min(8);
+                        }
                     }
                     // make the AES / ZipCrypto cases frequent: they own several of the weak points
                     if r.chance(1, 3) {
@@ -624,7 +634,7 @@ impl Scenario for Hostile {
                     Err(_) => return Verdict::Skip("seed image has no end record at EOF".into()),
                 };
                 let (_f, regions) = fields_of(&img0, &p);
-                let mut offs: Vec<u64> = regions.iter().flat_map(|(a, b)| *a..(*b).min(n0)).collect();
+                let mut offs: Vec<u64> = regions.iter().flat_map(|(a, b)| *a..(*b).min(n0).min(*a + 400)).collect();
                 offs.sort();
                 offs.dedup();
                 // thorough: all 255 substitutions; quick: 24 representative ones (all single-bit flips,
